@@ -37,6 +37,13 @@ func (m fakeMgr) GetTemplate(name string) (types.Template, error) {
 	return nil, notFound{m.v}
 }
 
+// a second concrete manager type: builders may return different implementations over time
+type fakeMgrPtr struct{ v int }
+
+func (m *fakeMgrPtr) GetTemplate(name string) (types.Template, error) {
+	return fakeMgr{m.v}.GetTemplate(name)
+}
+
 var errBuild = errors.New("build failed")
 
 type respWriter struct {
@@ -58,6 +65,9 @@ func runReloadHistory(hot bool, first bool, ops string) (line string, c18 string
 	builder := func(ctx context.Context) (types.TemplateManager, error) {
 		calls++
 		if healthy {
+			if calls%2 == 0 {
+				return &fakeMgrPtr{calls}, nil
+			}
 			return fakeMgr{calls}, nil
 		}
 		return nil, errBuild
